@@ -328,49 +328,118 @@ def rule_header(ctx, res):
               '', 'raw code extraction changed', gc.loc)
 
 
+def _int_of(e):
+    """value of a constant-size expression: 5, len(bytearray(5)), ..."""
+    if isinstance(e, ast.Constant) and isinstance(e.value, int) and \
+            not isinstance(e.value, bool):
+        return e.value
+    if isinstance(e, ast.Call) and isinstance(e.func, ast.Name) and \
+            e.func.id == 'len' and len(e.args) == 1:
+        a = e.args[0]
+        if isinstance(a, ast.Call) and isinstance(a.func, ast.Name) and \
+                a.func.id in ('bytearray', 'bytes') and len(a.args) == 1:
+            return _int_of(a.args[0])
+        if isinstance(a, ast.Constant) and isinstance(a.value, bytes):
+            return len(a.value)
+    if isinstance(e, ast.BinOp) and isinstance(e.op, (ast.Sub, ast.Add)):
+        x, y = _int_of(e.left), _int_of(e.right)
+        if x is not None and y is not None:
+            return x - y if isinstance(e.op, ast.Sub) else x + y
+    return None
+
+
+def _bounds_len(test, val, vtext):
+    """the largest len(V) the condition (test is val) allows, or None"""
+    if not (isinstance(test, ast.Compare) and len(test.ops) == 1):
+        return None
+    a, op, b = test.left, test.ops[0], test.comparators[0]
+
+    def is_len(e):
+        return isinstance(e, ast.Call) and isinstance(e.func, ast.Name) and \
+            e.func.id == 'len' and len(e.args) == 1 and \
+            ast.unparse(e.args[0]) == vtext
+    flip = {ast.Gt: ast.Lt, ast.GtE: ast.LtE, ast.Lt: ast.Gt,
+            ast.LtE: ast.GtE}
+    if is_len(b) and type(op) in flip:
+        a, b, op = b, a, flip[type(op)]()
+    if not is_len(a):
+        return None
+    c = _int_of(b)
+    if c is None:
+        return None
+    if isinstance(op, ast.Gt) and val is False:
+        return c
+    if isinstance(op, ast.GtE) and val is False:
+        return c - 1
+    if isinstance(op, ast.LtE) and val is True:
+        return c
+    if isinstance(op, ast.Lt) and val is True:
+        return c - 1
+    return None
+
+
 def rule_refuse(ctx, res):
+    """on every returning path of get_bytes_from_code, the slice store of
+    the code into the fixed-size area is preceded by a condition that bounds
+    the length of the stored value by the size of the area"""
+    from ..absint.symbody import SymBody
     model = ctx.model
     gb = model.func(PNG + ':get_bytes_from_code')
-    cfg = cfg_of(gb)
-    store = None
-    for n in walk_own(gb.node):
-        if isinstance(n, ast.Assign) and \
-                isinstance(n.targets[0], ast.Subscript) and \
-                isinstance(n.targets[0].slice, ast.Slice) and \
-                'len(code_bytes)' in ast.unparse(n.targets[0].slice):
-            store = n
-    if store is None:
-        res.vanished('R-C04-refuse', gb.qual, 'code area store',
-                     'byte_array[:len(code_bytes)] = code_bytes not found')
+    sym = SymBody(ctx, gb, no_inline={'compress_code'})
+    paths = [p for p in sym.run(gb.node.body) if p.end == 'return']
+    if not paths:
+        res.undecided('R-C04-refuse', gb.qual, 'code area store',
+                      'no returning path')
         return
-    arr = ast.unparse(store.targets[0].value)
-    guard = None
-    for n in cfg.nodes:
-        if n.kind != 'test':
-            continue
-        t = ast.unparse(n.ast).replace(' ', '')
-        if 'len(code_bytes)>' in t and (
-                'len(' + arr + ')' in t or '0x8000-0x4300' in t or
-                '15616' in t or '32768-17152' in t):
-            reach = cfg.reachable_from(cfg.succ_by_label(n, 'true'),
-                                       avoid={n})
-            if cfg.raise_exit in reach and cfg.exit not in reach and all(
-                    cfg.dominates(n, sn) for sn in cfg.nodes_of(store)):
-                guard = n
-    if guard is not None:
+    seen = 0
+    bad = None
+    for p in paths:
+        for i, ev in enumerate(p.events):
+            if ev[0] != 'store' or not isinstance(ev[2], ast.Slice):
+                continue
+            arr, sl, val, node = ev[1], ev[2], ev[3], ev[4]
+            if isinstance(arr, ast.Name):
+                binds = [e for e in p.events[:i]
+                         if e[0] == 'bind' and e[1] == arr.id]
+                if binds:
+                    arr = binds[-1][2]
+            cap = _int_of(ast.Call(func=ast.Name(id='len', ctx=ast.Load()),
+                                   args=[arr], keywords=[]))
+            if cap is None:
+                continue
+            seen += 1
+            vtext = ast.unparse(val)
+            limit = None
+            for k, (t, v) in enumerate(p.conds):
+                if p.conds.at[k] > i:
+                    continue
+                b = _bounds_len(t, v, vtext)
+                if b is not None:
+                    limit = b if limit is None else min(limit, b)
+            if limit is None or limit > cap:
+                bad = (node, cap, limit, p)
+    if not seen:
+        res.undecided('R-C04-refuse', gb.qual, 'code area store',
+                      'no slice store into a fixed-size bytearray found on '
+                      'the returning paths')
+        return
+    if bad is None:
         res.holds('R-C04-refuse', gb.qual,
                   'code that does not fit is refused',
-                  'a raising len(code_bytes) > len(area) test dominates the '
-                  'store', gb.module.loc(guard.ast))
+                  'on each of the {} returning paths the length of the '
+                  'stored code is bounded by the size of the area before '
+                  'the store'.format(len(paths)), gb.loc)
     else:
+        node, cap, limit, p = bad
         res.violation(
             'R-C04-refuse', gb.qual, 'code that does not fit is refused',
-            'the slice store `{}` is not guarded: code longer than the '
-            '0x3d00-byte area LENGTHENS the bytearray, the image data '
-            'becomes longer than the PNG, and the tail of the code and the '
-            'version byte fall off the last pixel -- a truncated cart is '
-            'written without any error'.format(unparse(store, 60)),
-            gb.module.loc(store))
+            'the slice store `{}` into the {}-byte area is not guarded '
+            '(bound on the path: {}): code longer than the area LENGTHENS '
+            'the bytearray, the image data becomes longer than the PNG, '
+            'and the tail of the code and the version byte fall off the '
+            'last pixel -- a truncated cart is written without any '
+            'error'.format(unparse(node, 60), cap, limit),
+            gb.module.loc(node))
 
 
 def rule_kinds(ctx, res):
